@@ -53,9 +53,9 @@ theorem NoB1.enterB2 (cfg : Cfg) (t : Req) (a : Asm) (ha : a.payload ≠ []) :
       exact ha (List.eq_nil_of_length_eq_zero hlen)
 
 theorem payload_ne_nil_of_valid {b : BlockOpt} {pl : Bytes} (hm : b.more = true)
-    (hv : b.validFor pl.length = true) : pl ≠ [] := by
+    (hv : b.okFor pl.length = true) : pl ≠ [] := by
   intro h
-  have := (validFor_more hm hv).1
+  have := (okFor_more hm hv).1
   rw [h] at this
   simp at this
 
@@ -73,7 +73,7 @@ theorem NoB1.completeBlock2 (cfg : Cfg) (t : Req) (r : Resp) : NoB1 (completeBlo
     by_cases hm : b.more = true
     · by_cases hn : b.num ≠ 0
       · simp [hm, hn, NoB1]
-      · by_cases hv : b.validFor r.payload.length = true
+      · by_cases hv : b.okFor r.payload.length = true
         · simp only [hm, Bool.not_true, Bool.false_eq_true, ↓reduceIte, hn, hv]
           exact NoB1.enterB2 _ _ _ (payload_ne_nil_of_valid hm hv)
         · simp [hm, hn, hv, NoB1]
@@ -445,7 +445,7 @@ theorem b2_ok_is_body (cfg : Cfg) (t : Req) (body : Bytes) (rs : List Resp) :
     · simp [hc] at h
     rw [if_neg hc] at h
     have hc' : r.code = a.code := by simpa using hc
-    by_cases hv : b.validFor r.payload.length = true
+    by_cases hv : b.okFor r.payload.length = true
     · by_cases hs : b.start ≠ a.payload.length
       · simp [hv, hs] at h
       · by_cases he : r.etag ≠ a.etag
@@ -506,7 +506,7 @@ theorem completeBlock2_ok_is_body (cfg : Cfg) (t : Req) (body : Bytes) (initial 
   rw [if_neg hg] at h
   by_cases hm : b.more = true
   · have hlt := hmore.mp hm
-    by_cases hv : b.validFor initial.payload.length = true
+    by_cases hv : b.okFor initial.payload.length = true
     · simp only [hm, Bool.not_true, Bool.false_eq_true, ↓reduceIte, hnum, ne_eq, not_true_eq_false,
         hv] at h
       unfold enterB2 at h
